@@ -34,6 +34,7 @@ TEndRun == /\ Ev("diags-end") /\ Active
            \* (compared with TRUE so that TLC EVALUATES the quantifiers: as conjuncts of an action every witness of every \E
            \* is a successor of its own -- ten expected places with ten candidates each were 10^10 successor states)
            /\ ("fault" \in DOMAIN cur) => (Covers(seen, cur.fault) = TRUE)
+           /\ ("fault" \in DOMAIN cur /\ "parts" \in DOMAIN cur.fault) => (CoversParts(seen, cur.fault) = TRUE)
            /\ ("faults" \in DOMAIN cur) => ((\A x \in 1..Len(cur.faults) : CoversAt(seen, cur.faults[x])) = TRUE)
            /\ cur' = Idle /\ seen' = <<>> /\ l' = l + 1 /\ UNCHANGED done
 TNormal == TInput \/ TDiag \/ TEndRun
